@@ -121,8 +121,7 @@ def worker(unit, emit):
                 rec('1' * n, 'digits-%d' % n)
                 rec('A' * n, 'letters-%d' % n)
                 rec(base + ' ' * n, 'pad-%d' % n)
-                for k in (2, 3, 5, 7):      # a documented beginning (prefix, type digits, special ranges) followed by very many digits
-                    rec(base[:k] + '1' * n, 'head-%d-digits-%d' % (k, n))
+
             # surroundings
             for pre, post in ((' ', ' '), ('\t', '\n'), ('\n', ''), ('', '\n'), (' ', '　'), ('\x00', '')):
                 rec(pre + base + post, 'surround')
@@ -131,6 +130,19 @@ def worker(unit, emit):
             rec(base.swapcase(), 'swapcase')
             rec(base + base, 'doubled')
             rec(base[::-1], 'reversed')
+        # a documented beginning (prefix, type digits, special ranges such as the 000 of Monaco in a French VAT number) of every
+        # base in compact spelling, followed by very many digits: where a length test was dropped in front of an int()
+        try:
+            cb = mod.compact(base) if hasattr(mod, 'compact') else base
+        except Exception:
+            cb = base
+        if isinstance(cb, str):
+            for k in (2, 3, 5, 7):
+                rec(cb[:k] + '1' * 5000, 'head-%d-digits-5000' % k)
+            if bi == 0:      # ... and the short constants of the module source (special codes) at the first offsets
+                for L in [q for q in inputs.literals(mod, minlen=2, maxlen=6, cap=60) if q.isalnum() and q.isascii()][:6]:
+                    for off in range(0, 4):
+                        rec(cb[:off] + L + '1' * 5000, 'head-%d-literal-%s-digits-5000' % (off, L))
         # string constants of the module (blacklisted letter pairs, type codes, court names) substituted for tokens of the base
         if bi == 0:
             for s_ in inputs.substitute_tokens(base, inputs.literals(mod, minlen=1, maxlen=12, cap=120))[:p['subst']]:
